@@ -45,6 +45,8 @@ pub const CT_RECONFIG: u8 = 130;
 pub const CT_FORWARD_TSN: u8 = 192;
 /// fault addressing only: a SACK that carries at least one gap-ack block
 pub const CT_GAP_SACK: u8 = 253;
+/// fault addressing only: a SACK that advertises a receive window of zero
+pub const CT_ZERO_SACK: u8 = 254;
 
 /// CRC-32C (Castagnoli), bitwise-table implementation, reflected polynomial 0x82F63B78.
 pub fn crc32c(data: &[u8]) -> u32 {
@@ -246,6 +248,7 @@ pub fn ctype_of(name: &str) -> u8 {
         "RECONFIG" => CT_RECONFIG,
         "FWD" => CT_FORWARD_TSN,
         "GSACK" => CT_GAP_SACK,
+        "ZSACK" => CT_ZERO_SACK,
         other => other.parse::<u8>().unwrap_or_else(|_| panic!("bad chunk type {other}")),
     }
 }
@@ -413,6 +416,9 @@ impl Proxy {
         let mut types: Vec<u8> = pv.chunks.iter().map(|c| c.ctype).collect();
         if pv.chunks.iter().any(|c| c.ctype == CT_SACK && !c.gaps.is_empty()) {
             types.push(CT_GAP_SACK);
+        }
+        if pv.chunks.iter().any(|c| c.ctype == CT_SACK && c.rwnd == Some(0)) {
+            types.push(CT_ZERO_SACK);
         }
         types.sort();
         types.dedup();
